@@ -136,16 +136,17 @@ RunResult run_once(const Scenario& sc, const SimSetup& s, long k, long* nChecks,
     if (e.M.empty()) e.pushM(Manifold::Cube());
     for (auto& m : e.M) (void)m.Status();  // operands are evaluated before the observed call
     const size_t nOperands = e.M.size(), nOperandsX = e.X.size();
-    const uint32_t idCounterBefore = Manifold::Impl::meshIDCounter_;
-    for (auto& op : sc.expr) exec(e, op);
     ExecutionContext ctx;
-    // context reuse: an earlier, uncancelled evaluation through the same context
+    // context reuse: an earlier, uncancelled evaluation through the same context (before the ID
+    // counter snapshot, so that the rebuild below is numbered like the reference run)
     if (!sc.prior.empty()) {
       Env pe;
       pe.capM = 64;
       for (auto& op : sc.prior) exec(pe, op);
       if (!pe.M.empty()) (void)pe.M.back().WithContext(ctx).Status();
     }
+    const uint32_t idCounterBefore = Manifold::Impl::meshIDCounter_;
+    for (auto& op : sc.expr) exec(e, op);
     g_sampleCtx = &ctx;
     g_sampleClause = &rr.observerClause;
     auto savedSync = manifold::verif::hooks.syncPoint;
